@@ -118,7 +118,31 @@ func init() {
 				if strings.HasSuffix(w.Fset.Position(f.Pos()).Filename, "_test.go") {
 					continue
 				}
+				// function literals in package-level initialisers are scanned as functions named "var <name>"
+				var decls []ast.Decl
 				for _, d := range f.Decls {
+					decls = append(decls, d)
+					if gd, ok := d.(*ast.GenDecl); ok && gd.Tok == token.VAR {
+						for _, sp := range gd.Specs {
+							vs, ok := sp.(*ast.ValueSpec)
+							if !ok {
+								continue
+							}
+							for i, val := range vs.Values {
+								name := "?"
+								if i < len(vs.Names) {
+									name = vs.Names[i].Name
+								}
+								decls = append(decls, &ast.FuncDecl{
+									Name: ast.NewIdent("var " + name),
+									Type: &ast.FuncType{Params: &ast.FieldList{}},
+									Body: &ast.BlockStmt{List: []ast.Stmt{&ast.ExprStmt{X: val}}},
+								})
+							}
+						}
+					}
+				}
+				for _, d := range decls {
 					fd, ok := d.(*ast.FuncDecl)
 					if !ok || fd.Body == nil {
 						continue
